@@ -14,6 +14,9 @@ pub enum Embed {
     Hi,
     /// fixed alternating head of (w-W) bits followed by the bits; len = w-W+l; plus the real /0
     Lo,
+    /// alternating head of w/2-1 bits followed by the bits: the keys straddle the middle of the
+    /// address (the 32/64-bit boundary of 64/128-bit representations); plus the real /0
+    Mid,
 }
 
 #[derive(Clone, Debug)]
@@ -88,8 +91,19 @@ pub fn abs_keys(name: &str) -> (Vec<Abs>, u8) {
     }
 }
 
+pub fn head_len(embed: Embed, width: u8, depth: u8) -> u8 {
+    match embed {
+        Embed::Hi => 0,
+        Embed::Lo => width - depth,
+        Embed::Mid => width / 2 - 1,
+    }
+}
+
 pub fn head(width: u8, depth: u8) -> GK {
-    let hl = width - depth;
+    head_mid(width - depth)
+}
+
+pub fn head_mid(hl: u8) -> GK {
     // alternating 1010...
     let pat: u128 = 0xAAAA_AAAA_AAAA_AAAA_AAAA_AAAA_AAAA_AAAA;
     (pat & mask128(hl), hl)
@@ -104,8 +118,8 @@ pub fn embed_key(a: Abs, embed: Embed, width: u8, depth: u8) -> GK {
                 ((a.0 as u128) << (128 - a.1 as u32), a.1)
             }
         }
-        Embed::Lo => {
-            let (h, hl) = head(width, depth);
+        Embed::Lo | Embed::Mid => {
+            let (h, hl) = head_mid(head_len(embed, width, depth));
             let len = hl + a.1;
             if a.1 == 0 {
                 (h, hl)
@@ -135,7 +149,7 @@ impl Universe {
             .iter()
             .map(|a| embed_key(*a, embed, width, depth))
             .collect();
-        if embed == Embed::Lo {
+        if embed != Embed::Hi {
             keys.insert((0, 0));
         }
         let keys: Vec<GK> = keys.into_iter().collect();
@@ -144,8 +158,8 @@ impl Universe {
         let interesting_len = |l: u8| -> bool {
             match embed {
                 Embed::Hi => true,
-                Embed::Lo => {
-                    let hl = width - depth;
+                Embed::Lo | Embed::Mid => {
+                    let hl = head_len(embed, width, depth);
                     l <= 3
                         || l + 3 >= hl
                         || l == hl / 2
@@ -188,6 +202,7 @@ impl Universe {
         let ename = match embed {
             Embed::Hi => "hi",
             Embed::Lo => "lo",
+            Embed::Mid => "mid",
         };
         Universe {
             name: format!("{name}/{ename}/w{width}"),
